@@ -148,7 +148,13 @@ class Runtime:
                 sys.modules[modname] = mod
                 exec(compile(m["src"], fname, "exec"), mod.__dict__)  # noqa: S102
                 self.long[("scriptmodel", h)] = mod
-            return getattr(self.long[("scriptmodel", h)], m["fn"]).to_model_proto()
+            ns = self.long[("scriptmodel", h)].__dict__
+            kw = {}
+            if m.get("it"):
+                kw["input_types"] = eval(m["it"], ns)  # noqa: S307 - type expressions harvested from the repo's own tests
+            if m.get("ot"):
+                kw["output_types"] = eval(m["ot"], ns)  # noqa: S307
+            return ns[m["fn"]].to_model_proto(**kw)
         if m["pool"] == "compose":
             # several small models side by side in one graph (values prefixed per part): several independent matches of the
             # same rule, different rules in one traversal, several outputs, duplicated initializers
@@ -519,6 +525,16 @@ class Runtime:
             if rules is None:
                 raise ValueError(f"no rule set in {name}")
             rs = rules
+        elif name.startswith("ortall:"):
+            import importlib
+
+            mod = importlib.import_module("onnxscript.rewriter.ort_fusions." + name.split(":", 1)[1])
+            rules = []
+            for attr in sorted(dir(mod)):
+                v = getattr(mod, attr)
+                if isinstance(v, pattern.RewriteRuleSet):
+                    rules.extend(r for r in v.rules if r not in rules)
+            rs = pattern.RewriteRuleSet(rules)
         elif name.startswith("ort:"):
             import importlib
 
@@ -549,6 +565,36 @@ class Runtime:
         mp = self.load_model_proto(op["model"])
         rules = op.get("rules", "default")
         api = op.get("api", "proto")
+        if rules.startswith("ortfuse:"):
+            # the ORT fusion drivers: every fusion rule set of the package in their fixed order, on module-level singletons
+            from onnxscript.rewriter.ort_fusions import _core
+
+            m = self._as_ir(mp)
+            if op.get("pre_optimize"):
+                import onnxscript.optimizer as opt
+
+                opt.optimize(m)
+            which = rules.split(":", 1)[1]
+            if which == "fuse_xformers":
+                m2, counts = _core.fuse_xformers(m)
+            else:
+                m2, counts = _core.optimize_for_ort(m, **({"config_name": which.split("=", 1)[1]} if "=" in which else {}))
+            return {"model": self._serialize(m2), "counts": json.dumps(counts, sort_keys=True)}
+        if rules.startswith("ortfn:"):
+            # the per-module fuse_* entry points (what users call), in name order
+            import importlib
+
+            mod = importlib.import_module("onnxscript.rewriter.ort_fusions." + rules.split(":", 1)[1])
+            m = self._as_ir(mp)
+            if op.get("pre_optimize"):
+                import onnxscript.optimizer as opt
+
+                opt.optimize(m)
+            counts = {}
+            for attr in sorted(dir(mod)):
+                if attr.startswith("fuse_") and callable(getattr(mod, attr)):
+                    counts[attr] = getattr(mod, attr)(m)
+            return {"model": self._serialize(m), "counts": json.dumps(counts, sort_keys=True)}
         if rules == "default":
             if api == "proto":
                 out = rewriter.rewrite(mp)
@@ -734,6 +780,7 @@ def main() -> int:
     import onnxscript.rewriter.ort_fusions.gelu  # noqa: F401
     import onnxscript.rewriter.ort_fusions.rms_normalization  # noqa: F401
     import onnxscript.rewriter.ort_fusions.softmax  # noqa: F401
+    import onnxscript.rewriter.ort_fusions._core  # noqa: F401
     try:  # the rule tests' model-building modules import these; import once so forked children do not
         import parameterized  # noqa: F401
         import onnxscript.rewriter.testing  # noqa: F401
